@@ -145,6 +145,22 @@ def noallocFormat (stack : Bytes) (level : Nat) (subject msg ts tid : Bytes) : E
     { total := MAXIMUM_NO_ALLOC_LOG_LINE_SIZE, level := level, subject := some subject, msg := msg, ts := ts, tid := tid }
   pure (lineOf r)
 
+/-! ### level names (`aws_log_level_to_string`, `aws_string_to_log_level`) -/
+
+/-- `s_tolower_table`: ASCII upper-case letters to lower case, every other byte unchanged -/
+def asciiLower (b : UInt8) : UInt8 := if 65 ≤ b ∧ b ≤ 90 then b + 32 else b
+
+/-- `aws_array_eq_c_str_ignore_case(array, len, c_str)` -/
+def eqIgnoreCase (a b : Bytes) : Bool := a.map asciiLower == b.map asciiLower
+
+/-- `aws_log_level_to_string`: precondition `log_level < AWS_LL_COUNT`, else AWS_ERROR_INVALID_ARGUMENT -/
+def levelToString (level : Nat) : Option Bytes := levelStrings[level]?
+
+/-- `aws_string_to_log_level`: the first level whose name equals the text ignoring ASCII case; none = AWS_ERROR_INVALID_ARGUMENT -/
+def stringToLevel (s : Bytes) : Option Nat :=
+  let i := levelStrings.findIdx (eqIgnoreCase s)
+  if i < levelStrings.length then some i else none
+
 /-! ### log subject names (`aws_log_subject_name`, `s_get_log_subject_info_by_id`, registration)
 
 `s_log_subject_slots[AWS_PACKAGE_SLOTS]` holds one registered list per package slot; a list is its names (its count is
